@@ -17,7 +17,10 @@ class Trace:
         self.c = H.parse_case(case)
         self.nb = self.c["nb"]
         self.ok = not (impl.startswith("PANIC") or impl.startswith("DRIVER"))
-        self.steps = H.parse_out(impl, self.nb) if self.ok else []
+        self.with_refs = " # R " in impl
+        raw = H.parse_out(impl, self.nb, with_refs=self.with_refs) if self.ok else []
+        self.refs = [x[3] if len(x) > 3 else None for x in raw]
+        self.steps = [x[:3] for x in raw]
         # static config + mutable price per bank
         self.cfg = [dict(b) for b in self.c["banks"]]
 
@@ -352,18 +355,28 @@ def oracle_c07(tr):
 # ------------------------------------------------------------------------------------------------
 # C06 freshness at handler level
 def oracle_c06_fresh(tr):
+    """every successful user instruction leaves each bank it transacts in with last_update == clock and
+    with exactly the share values that the real accrue_interest yields from the pre-instruction state
+    (reference computed by the harness with the real function, suite `hopsref`)"""
     if not tr.ok:
         return None
+    i = -1
     for op, res, b0, a0, b1, a1, now, prices in walk(tr):
+        i += 1
         if res != "OK":
             continue
         touched = {1: [2], 2: [2], 3: [2], 4: [2], 7: [2], 10: [1], 17: [3, 4], 18: [2]}.get(op[0], [])
+        refs = tr.refs[i] if tr.with_refs else None
         for j in touched:
             k = op[j]
-            if op[0] == 1 and op[3] == 0:
-                pass
-            if b1[k]["last_update"] != now and (b1[k]["tas"] != 0 or b1[k]["tls"] != 0 or True):
+            if b1[k]["last_update"] != now:
                 return {"key": "stale-interest", "what": f"{H.OPN[op[0]]} succeeded on bank {k} with last_update {b1[k]['last_update']} != clock {now}"}
+            if refs and refs[k] is not None:
+                ra, rl = refs[k]
+                if b1[k]["lsv"] != rl:
+                    return {"key": "interest-not-applied-first", "what": f"{H.OPN[op[0]]} left bank {k} with liability share value {b1[k]['lsv']}, accrual to the current time gives {rl}"}
+                if op[0] != 18 and b1[k]["asv"] != ra:
+                    return {"key": "interest-not-applied-first", "what": f"{H.OPN[op[0]]} left bank {k} with asset share value {b1[k]['asv']}, accrual to the current time gives {ra}"}
     return None
 
 
